@@ -178,7 +178,7 @@ fn listing(p: &Path, out: &mut Vec<(PathBuf, u64, Option<std::time::SystemTime>)
 /// A crash image must be a state of the directory that existed at one instant.  Background tasks (asynchronous
 /// commit-log clean-up, start-up compaction) may run while we copy, so the copy is repeated until the
 /// directory listing (names, sizes, mtimes) is the same before and after it.
-fn copy_dir(src: &Path, dst: &Path) {
+pub fn copy_dir(src: &Path, dst: &Path) {
     for _ in 0..50 {
         let mut before = vec![];
         listing(src, &mut before);
